@@ -15,10 +15,20 @@ CLAIMED = {
                  "get_bin_for_det_pos_pair, get_det_pair_for_bin, get_det_pos_pair_for_bin against contracts taken from the property (view mashing, "
                  "exchange => rings exchanged and TOF index negated; TOF mashing round((float)t/f) equals the integer nearest-multiple rule for each "
                  "mashing factor f, all |t|<2^20); (e) lemmas over those contracts: exchanging the detectors gives the same bin with negated TOF index and "
-                 "the same ordered ring-pair lookup; uncompressed bin -> detection position pair -> bin is the identity. Not decided: ring pair <-> "
-                 "(segment, axial position) tables, get_all_det_pos_pairs_for_bin, span/segment construction, Blocks/Generic classes."),
+                 "the same ordered ring-pair lookup; uncompressed bin -> detection position pair -> bin is the identity; (f) ring pairs: "
+                 "get_segment_num_for_ring_difference, get_segment_axial_pos_num_for_ring_pair, get_ring_pair_for_segment_axial_pos_num and "
+                 "compute_segment_axial_pos_to_ring_pair (stride-2 loop under loop contract: a ring pair is listed exactly once iff it is a pair of the "
+                 "scanner with ring difference in the segment and ring1+ring2 of that axial position; nothing else is listed; never more than reserved), "
+                 "lemmas: a covered ring pair lies in the list of the (segment, axial position) it is mapped to and in no other list; span-1 inverse; "
+                 "(g) get_all_det_pos_pairs_for_bin / get_num_det_pos_pairs_for_bin (3 nested loop contracts, ghost entry; parametric in view mashing, "
+                 "TOF mashing and ring-pair count): the list has exactly the reported count, every entry written once inside the vector's size, entry "
+                 "(i,j,l) = detector pair of uncompressed view i, j-th ring pair, l-th unmashed TOF index; even TOF mashing factors are reported as an "
+                 "error. Not decided: span/segment construction (ProjDataInfoCTI/GE), the float block of initialise_ring_diff_arrays (assumed contract "
+                 "ring1+ring2 = 2*ax/inc + offset), the ring_diff_to_segment_num fill loop (assumed), axial position inside a truncated axial range, "
+                 "Blocks/Generic classes."),
         "note": ("trusted: cbmc 6.11.0 + kissat/MiniSat; lookup tables are projected onto one nondeterministic ghost cell; readers of a table see the "
-                 "filler's postcondition; ring-pair functions are assumed contracts at this level; N and the TOF mashing factor are swept as constants"),
+                 "filler's postcondition; segments' ring-difference intervals disjoint and increasing with the segment number (established by the constructors, assumed); "
+                 "per-segment values |.|<2^15; N, view mashing, TOF mashing factor and ring-pair count are swept as constants"),
     },
     "C11": {
         "text": ("partial - clauses decided: VectorWithOffset<T> representation invariant preserved and abstract view (index range + "
